@@ -31,6 +31,7 @@ import (
 	"k8s.io/apimachinery/pkg/runtime"
 	"k8s.io/apimachinery/pkg/runtime/serializer"
 	k8stypes "k8s.io/apimachinery/pkg/types"
+	"k8s.io/apimachinery/pkg/util/intstr"
 	k8stesting "k8s.io/client-go/testing"
 	"sigs.k8s.io/controller-runtime/pkg/client"
 	"sigs.k8s.io/controller-runtime/pkg/client/apiutil"
@@ -554,3 +555,48 @@ func GenCluster(rng *rand.Rand, cfg world.Config, level int) []client.Object {
 
 // Universe is the request universe of the C06 behaviours.
 func Universe() sem.Universe { return sem.DefaultUniverse(Hosts, Paths) }
+
+// AdvIdentities are namespace/name pairs that stress the tie-break key of sortIngress,
+// namespace + "/" + name, when the creation stamps are equal: concatenations that collide
+// with different splits (a/bc and ab/c, abc/c and ab/cc, a/bcc), one namespace a prefix of
+// another, differences only around the separator, names sorting opposite to namespaces.
+var AdvIdentities = [][2]string{
+	{"a", "bc"}, {"ab", "c"}, {"abc", "c"}, {"ab", "cc"}, {"a", "bcc"}, {"a", "z"}, {"ab", "a"},
+	{"a-b", "c"}, {"a", "b-c"}, {"a", "b"},
+}
+
+// GenAdversarial generates n ingresses with those identities and one creation stamp, all
+// declaring the same host and path with a service of their own namespace, the same host
+// with a TLS secret of their own namespace (a distinct certificate per namespace), and an
+// app-root of their own; plus the services, endpoints and secrets they use.
+func GenAdversarial(rng *rand.Rand, n int) []client.Object {
+	var objs []client.Object
+	nss := []string{"a", "ab", "abc", "a-b"}
+	for i, ns := range nss {
+		objs = append(objs, world.Service(ns, "svc1", world.SvcPort{Name: "http", Port: 80, TargetPort: intstr.FromInt(8080)}))
+		objs = append(objs, world.Endpoints(ns, "svc1", world.EpPort{Name: "http", Port: 8080, Ready: []string{fmt.Sprintf("10.7.%d.1", i)}}))
+		objs = append(objs, world.TLSSecret(ns, "tls-valid", "adv-"+ns+".example", 0))
+	}
+	perm := rng.Perm(len(AdvIdentities))
+	if rng.Intn(2) == 0 {
+		// make sure a colliding pair is there
+		pairs := [][2]int{{0, 1}, {2, 3}, {2, 4}, {3, 4}}
+		pr := pairs[rng.Intn(len(pairs))]
+		perm = append([]int{pr[0], pr[1]}, perm...)
+	}
+	seen := map[int]bool{}
+	host := []string{"a.example", "b.example"}[rng.Intn(2)]
+	for _, k := range perm {
+		if seen[k] || len(seen) >= n {
+			continue
+		}
+		seen[k] = true
+		id := AdvIdentities[k]
+		ing := world.Ingress(id[0], id[1], 15,
+			world.IngRule{Host: host, Paths: []world.IngPath{{Path: "/", Type: "Prefix", Service: "svc1", PortNum: 80}}})
+		ing.Spec.TLS = []networking.IngressTLS{{Hosts: []string{host}, SecretName: "tls-valid"}}
+		ing.Annotations = map[string]string{Prefixes[0] + "app-root": "/" + id[0] + "_" + id[1]}
+		objs = append(objs, ing)
+	}
+	return objs
+}
